@@ -157,6 +157,9 @@ func (tb *TB) Bool(b bool) *Term {
 	return tb.False()
 }
 
+// SanitizeName makes a string usable as file name / SMT symbol.
+func SanitizeName(s string) string { return sanitize(s) }
+
 func sanitize(s string) string {
 	var sb strings.Builder
 	for _, r := range s {
